@@ -15,6 +15,7 @@ MaxN(a, b) == IF a > b THEN a ELSE b
 Range1(n) == [i \in 1..n |-> i]            \* <<1..n>> as a sequence to fold over
 Range0(n) == [i \in 1..n |-> i-1]          \* <<0..n-1>>
 
+B2N(b) == IF b THEN 1 ELSE 0
 Parity8(x) == (Bit(x,0)+Bit(x,1)+Bit(x,2)+Bit(x,3)+Bit(x,4)+Bit(x,5)+Bit(x,6)+Bit(x,7)) % 2
 Rev8(x) == Bit(x,0)*128+Bit(x,1)*64+Bit(x,2)*32+Bit(x,3)*16+Bit(x,4)*8+Bit(x,5)*4+Bit(x,6)*2+Bit(x,7)
 Rev16(x) == Rev8(x % 256) * 256 + Rev8(x \div 256)
